@@ -94,6 +94,12 @@ class MArr:
     def tobytes(self, *a, **k):
         return self.raw
 
+    def edit_in_place(self, raw):
+        """model of ``a[...] = ...``: same object, same type and shape,
+        other content"""
+        assert len(raw) == len(self.raw)
+        self.raw = bytes(raw)
+
     def copy(self):
         return MArr(self.raw, self.dtype.str, self.shape)
 
@@ -120,18 +126,39 @@ def _ascontig(a, *r, **k):
 
 
 class Fn:
-    """a decorated function: counts calls, returns a fresh token"""
+    """a decorated function: counts calls, returns a fresh token.  Without
+    `params` its signature is ``(*args, **kwargs)``: every positional /
+    keyword spelling is a different computation.  With `params` (and
+    `defaults` for the trailing ones) it has that named signature."""
 
     class _Code:
-        def __init__(self, fname):
+        def __init__(self, fname, params):
             self.co_filename = fname
+            self.co_name = "f"
+            self.co_firstlineno = 1
+            self.co_posonlyargcount = 0
+            self.co_kwonlyargcount = 0
+            if params is None:
+                self.co_argcount = 0
+                self.co_varnames = ("args", "kwargs")
+                self.co_flags = 0x0F
+                self.co_nlocals = 2
+            else:
+                self.co_argcount = len(params)
+                self.co_varnames = tuple(params)
+                self.co_flags = 0x03
+                self.co_nlocals = len(params)
 
-    def __init__(self, name, doc, filename):
+    def __init__(self, name, doc, filename, params=None, defaults=()):
         self.__name__ = name
         self.__qualname__ = name
         self.__doc__ = doc
         self.__module__ = filename.replace("/", ".")[:-3]
-        self.__code__ = Fn._Code(filename)
+        self.__code__ = Fn._Code(filename, params)
+        self.__defaults__ = tuple(defaults) if params is not None else None
+        self.__kwdefaults__ = None
+        self.__annotations__ = {}
+        self.__wrapped_params__ = params
         self.calls = []
 
     def __call__(self, *args, **kwargs):
